@@ -116,12 +116,10 @@ def argpos(ctx, file_filter, label: str, floor: int = 1):
             continue
         own_d = "_defaults" in ci.own
         own_k = "_keyword_only" in ci.own
-        if own_d:
-            d = em.defaults(ci)
-            if d is not None:
-                nc += 1
-                extra = sorted(k for k in d if k not in params)
-                ctx.ob("ARGPOS.defaults", ci.node, f"{ci.name}._defaults keys are parameters", not extra, f"defaults for unknown parameters {extra}", nontrivial=bool(d))
+        # (no `_defaults` subset-of `_parameters` obligation: base classes legitimately carry defaults for
+        #  parameters that only their subclasses declare, e.g. Reduction._defaults["skipna"])
+        if own_d and em.defaults(ci) is not None:
+            nc += 1
         if own_k:
             ko = em.keyword_only(ci)
             if ko is not None:
